@@ -21,6 +21,7 @@ type c04Scenario struct {
 	Name   string
 	Files  []*sFile
 	Prelog map[string]time.Duration // name -> age of a receive-log record written in an earlier run
+	Lean   bool                     // reduced alphabet (every file delivered at most once, no corruption, no polls)
 }
 
 func one(key, name, prev, data string) *sFile {
@@ -37,6 +38,9 @@ func c04Scenarios(thorough bool) []c04Scenario {
 		{Name: "logged-1min", Files: []*sFile{one("f2", "a.b", "a", "2222"), one("f3", "xa", "a.b", "3333")}, Prelog: map[string]time.Duration{"a": time.Minute}},
 		{Name: "logged-25h-substring", Files: []*sFile{one("f2", "a.b", "a", "2222")}, Prelog: map[string]time.Duration{"xa": time.Minute, "a.b.c": time.Minute, "a": 25 * time.Hour}},
 		{Name: "logged-4d", Files: []*sFile{one("f2", "a.b", "a", "2222")}, Prelog: map[string]time.Duration{"a": 4 * 24 * time.Hour}},
+		// two versions of a held file: version 1 arrives while its predecessor is unknown (retry timer
+		// armed), the predecessor arrives and is held itself, version 2 replaces version 1
+		{Name: "new-version-of-held-file", Lean: true, Files: []*sFile{one("f0", "xa", "", "0000"), one("f1", "a", "xa", "1111"), one("f2", "a.b", "a", "2222"), one("f2b", "a.b", "a", "3333")}},
 		{Name: "only-superstrings-logged", Files: []*sFile{one("f2", "a.b", "a", "2222")}, Prelog: map[string]time.Duration{"xa": time.Minute, "a.b": 25 * time.Hour, "d/a": time.Minute}},
 	}
 	if thorough {
@@ -49,13 +53,25 @@ func c04Scenarios(thorough bool) []c04Scenario {
 	return sc
 }
 
-func c04Alphabet(files []*sFile, thorough bool) func(hist []sAction) []sAction {
+func c04Alphabet(files []*sFile, thorough, lean bool) func(hist []sAction) []sAction {
 	return func(hist []sAction) []sAction {
 		var out []sAction
+		maxRecv := 2
+		if lean {
+			maxRecv = 1
+		}
 		for _, f := range files {
-			if histCount(hist, "recv", f.Key, 0) < 2 {
+			if histCount(hist, "recv", f.Key, 0) < maxRecv {
 				out = append(out, sAction{Op: "recv", F: f.Key, P: 0})
 			}
+		}
+		if lean {
+			for _, op := range []string{"adv10s", "adv30m", "clean", "restart"} {
+				if histCount(hist, op, "", 0) < 1 {
+					out = append(out, sAction{Op: op})
+				}
+			}
+			return out
 		}
 		if histCount(hist, "recvbad", "", 0) < 1 {
 			for _, f := range files {
@@ -117,7 +133,13 @@ func c04Check(sc c04Scenario) func(s *sim, _ bool) vh.HistResult {
 		last := s.steps[len(s.steps)-1]
 		for j, r := range last.LogAfter {
 			name := strings.Split(r, "|")[0]
-			if f := byName[name]; f == nil || !strings.HasSuffix(r, "|"+f.hash()) {
+			mine := false
+			for _, k := range s.order {
+				if f := s.files[k]; f.Name == name && strings.HasSuffix(r, "|"+f.hash()) {
+					mine = true // some version of the name delivered in this run
+				}
+			}
+			if !mine {
 				continue // a record of an earlier run
 			}
 			if _, ok := logIdx[name]; !ok {
@@ -254,7 +276,7 @@ func TestC04(t *testing.T) {
 // receive log, an earlier one, however long ago); same machinery and oracle as C04.
 func TestC03Hold(t *testing.T) {
 	runC04(t, "C03", "held files are released (E-HIST on the stage)", func(name string) bool {
-		return strings.HasPrefix(name, "logged") || name == "chain" || name == "forest"
+		return strings.HasPrefix(name, "logged") || name == "chain" || name == "forest" || name == "new-version-of-held-file"
 	})
 }
 
@@ -292,7 +314,7 @@ func runC04(t *testing.T, prop, partName string, use func(scenario string) bool)
 		n++
 		h := &vh.Hist[sAction]{
 			Rep:        rep,
-			Alphabet:   c04Alphabet(sc.Files, vh.Thorough()),
+			Alphabet:   c04Alphabet(sc.Files, vh.Thorough(), sc.Lean),
 			Run:        func(hist []sAction) vh.HistResult { return c04Run(sc, hist) },
 			MaxDepth:   depth,
 			ShardDepth: 2,
@@ -303,7 +325,7 @@ func runC04(t *testing.T, prop, partName string, use func(scenario string) bool)
 		}
 		h.Explore()
 	}
-	rep.Bound = fmt.Sprintf("all histories up to length %d, for each of %d predecessor structures (chain, forest, self reference + tail, 2-cycle + tail, predecessor known only from a log record 1 min / 25 h / 4 days old, log holding only super-strings of the predecessor's name; thorough adds 3-cycle, 40-day-old record, chain of 4) over single-part files named a, a.b, xa (prefix / substring of one another): deliver a file (up to twice), deliver it corrupted, poll, clock +11 s / +31 min (periodic cleaner), CleanNow, orderly restart", depth, n)
+	rep.Bound = fmt.Sprintf("all histories up to length %d, for each of %d predecessor structures (chain, forest, self reference + tail, 2-cycle + tail, predecessor known only from a log record 1 min / 25 h / 4 days old, log holding only super-strings of the predecessor's name, a second version of a held file whose predecessor is held too (reduced alphabet); thorough adds 3-cycle, 40-day-old record, chain of 4) over single-part files named a, a.b, xa (prefix / substring of one another): deliver a file (up to twice), deliver it corrupted, poll, clock +11 s / +31 min (periodic cleaner), CleanNow, orderly restart", depth, n)
 }
 
 func c04Run(sc c04Scenario, hist []sAction) vh.HistResult {
